@@ -10,6 +10,8 @@
 
 from __future__ import annotations
 
+import contextlib
+
 import os
 import sys
 from contextlib import contextmanager
@@ -136,3 +138,25 @@ def line_failpoint(codes, fail_at: int | None):
             mon.set_local_events(TOOL_ID, c, 0)
         mon.register_callback(TOOL_ID, mon.events.LINE, None)
         mon.free_tool_id(TOOL_ID)
+
+
+@contextlib.contextmanager
+def store_clock(kind: str | None):
+    """Environment variation: what the store module sees as 'now'.  'whole-second': a time
+    stamp without fractional seconds (one creation in a million in real life - isoformat()
+    then omits the fraction)."""
+    if kind is None:
+        yield
+        return
+    import AEIC.trajectories.store as S
+    real = S.datetime
+
+    class _Clock(real):
+        @classmethod
+        def now(cls, tz=None):
+            return real.now(tz).replace(microsecond=0)
+    S.datetime = _Clock
+    try:
+        yield
+    finally:
+        S.datetime = real
